@@ -95,6 +95,9 @@ func (vc *VC) declare(name, sort string) {
 	if vc.declared[name] {
 		return
 	}
+	if strings.Contains(sort, "Str") {
+		vc.ensureStr()
+	}
 	vc.declared[name] = true
 	vc.declared["const:"+name] = true
 	vc.decls = append(vc.decls, fmt.Sprintf("(declare-const %s %s)", name, sort))
